@@ -442,6 +442,10 @@ func runAlias(c *Case, tr *Trace) {
 			return &map[string]interface{}{}
 		case "mapstr":
 			return &map[string]string{}
+		case "mapslice":
+			return &map[string][]string{}
+		case "mapstruct":
+			return &map[string]struct{ V string }{}
 		}
 		var x interface{}
 		return &x
@@ -653,3 +657,82 @@ func runConc(c *Case, tr *Trace) {
 }
 
 func ptrVD(v VD) *VD { return &v }
+
+// ---------------------------------------------------------------- kind "goreuse" (C17: iterator and unfolder)
+
+func init() { extraKinds["goreuse"] = runGoReuse }
+
+// runGoReuse folds a history of Go values and then a probe value with ONE
+// iterator, and the probe alone with a new iterator (component iter); or
+// unfolds the folded history and probe into fresh targets with ONE unfolder
+// versus a new unfolder (component unfolder).  sub.history: [{T,V}...], sub.T/sub.V: probe.
+func runGoReuse(c *Case, tr *Trace) {
+	comp := c.Sub["component"].(string)
+	type prog struct {
+		T TD
+		V VD
+	}
+	var hist []prog
+	{
+		b, _ := json.Marshal(c.Sub["history"])
+		json.Unmarshal(b, &hist)
+		for i := range hist {
+			hist[i].T.norm()
+			hist[i].V.norm()
+		}
+	}
+	probe := prog{subTD(c, "T"), subVD(c, "V")}
+	res := map[string]interface{}{"histerr": "", "errR": "", "errF": ""}
+	tr.Extra = res
+	errStr := func(e error) string {
+		if e == nil {
+			return ""
+		}
+		return e.Error()
+	}
+	switch comp {
+	case "iter":
+		rec := &Recorder{}
+		it, _ := gotype.NewIterator(rec)
+		for _, h := range hist {
+			if err := it.Fold(newValue(&h.T, &h.V).Elem().Interface()); err != nil {
+				res["histerr"] = err.Error()
+				return
+			}
+		}
+		mark := len(rec.Events)
+		errR := it.Fold(newValue(&probe.T, &probe.V).Elem().Interface())
+		recF := &Recorder{}
+		itF, _ := gotype.NewIterator(recF)
+		errF := itF.Fold(newValue(&probe.T, &probe.V).Elem().Interface())
+		res["evR"], res["evF"] = evOrEmpty(rec.Events[mark:]), evOrEmpty(recF.Events)
+		res["errR"], res["errF"] = errStr(errR), errStr(errF)
+	case "unfolder":
+		un, _ := gotype.NewUnfolder(nil)
+		idle := un.VerifDepths()
+		deps := [][]int{}
+		unfoldInto := func(u *gotype.Unfolder, p prog) (VD, error) {
+			q := reflect.New(buildType(&p.T))
+			if err := u.SetTarget(q.Interface()); err != nil {
+				return describe(q.Elem()), err
+			}
+			err := gotype.Fold(newValue(&p.T, &p.V).Elem().Interface(), u)
+			return describe(q.Elem()), err
+		}
+		for _, h := range hist {
+			if _, err := unfoldInto(un, h); err != nil {
+				res["histerr"] = err.Error()
+				return
+			}
+			deps = append(deps, un.VerifDepths())
+		}
+		rR, errR := unfoldInto(un, probe)
+		deps = append(deps, un.VerifDepths())
+		fresh, _ := gotype.NewUnfolder(nil)
+		rF, errF := unfoldInto(fresh, probe)
+		res["rR"], res["rF"], res["deps"], res["idle"] = rR, rF, deps, idle
+		res["errR"], res["errF"] = errStr(errR), errStr(errF)
+	default:
+		panic("harness: unknown goreuse component " + comp)
+	}
+}
